@@ -54,7 +54,7 @@ class Session:
         self.geos = [Geo(s) for s in world["labware"]]
         self.input_arrays = {}
         self.labs = [build_labware(self.rt, s, self.input_arrays, i) for i, s in enumerate(world["labware"])]
-        self.input_copies = {i: a.copy() for i, a in self.input_arrays.items()}
+        self.input_copies = {i: a.copy() for i, a in self.input_arrays.items() if isinstance(i, int)}
         self.wl = build_worklist(self.rt, world, scratch=scratch, device=self.device)
         self.events = []
         self.nrec = 0
@@ -157,7 +157,7 @@ class Session:
         """the arrays the user script handed to the constructors still hold what it put there."""
         import numpy as np
 
-        return all(np.array_equal(a, self.input_copies[i]) for i, a in self.input_arrays.items())
+        return all(np.array_equal(a, self.input_copies[i]) for i, a in self.input_arrays.items() if isinstance(i, int))
 
     def digest(self):
         return digest_events(self.events)
